@@ -238,14 +238,33 @@ func BuildFrame(prog *Program) *Frame {
 // kind whose own call closure contains an in-module dynamic call or a non-leaf external call is "heavy"
 // (ServeHTTP, RoundTrip, ...): leaf library code is assumed never to invoke a heavy method.
 func (f *Frame) computeLight() {
+	// The interfaces through which leaf library code (formatting, encoding, I/O, sorting, errors, SQL value
+	// conversion, HTTP response writing) inspects or drives the values it is handed. Driver / handler / transport
+	// interfaces are not in this list: the module registers no database driver, and handlers run only from the
+	// server entry points (nonLeafFuncs).
 	extNames := map[string]bool{"Error": true}
-	for path, pk := range f.prog.Pkgs {
-		if pk.Types == nil || strings.HasPrefix(path, "github.com/tucats/ego") {
+	for path, names := range map[string][]string{
+		"fmt":              {"Stringer", "GoStringer", "Formatter", "State", "Scanner"},
+		"errors":           {},
+		"encoding":         {"TextMarshaler", "TextUnmarshaler", "BinaryMarshaler", "BinaryUnmarshaler"},
+		"encoding/json":    {"Marshaler", "Unmarshaler"},
+		"io":               {"Reader", "Writer", "Closer", "Seeker", "ReaderAt", "WriterAt", "ReaderFrom", "WriterTo", "ByteReader", "ByteWriter", "RuneReader", "StringWriter", "ReadCloser", "WriteCloser", "ReadWriter", "ReadWriteCloser"},
+		"io/fs":            {"FS", "File", "FileInfo", "DirEntry"},
+		"sort":             {"Interface"},
+		"flag":             {"Value"},
+		"database/sql":     {"Scanner"},
+		"database/sql/driver": {"Valuer"},
+		"net/http":         {"ResponseWriter", "Flusher", "Hijacker", "Pusher", "CloseNotifier"},
+		"hash":             {"Hash"},
+		"context":          {"Context"},
+		"log/slog":         {"LogValuer"},
+	} {
+		pk := f.prog.Pkgs[path]
+		if pk == nil || pk.Types == nil {
 			continue
 		}
-		sc := pk.Types.Scope()
-		for _, n := range sc.Names() {
-			if tn, ok := sc.Lookup(n).(*types.TypeName); ok {
+		for _, n := range names {
+			if tn, ok := pk.Types.Scope().Lookup(n).(*types.TypeName); ok {
 				if it, ok := tn.Type().Underlying().(*types.Interface); ok {
 					for i := 0; i < it.NumMethods(); i++ {
 						extNames[it.Method(i).Name()] = true
@@ -253,6 +272,9 @@ func (f *Frame) computeLight() {
 				}
 			}
 		}
+	}
+	for _, n := range []string{"Unwrap", "Is", "As", "Error"} {
+		extNames[n] = true
 	}
 	f.heavyNames = map[string]bool{}
 	var cands []*fnode
